@@ -403,7 +403,12 @@ class AutoSerialize:
             group.attrs[name] = value
         elif hasattr(value, "dtype") and hasattr(value, "item"):
             # Handle numpy scalar types (np.float32, np.int64, etc.)
-            group.attrs[name] = value.item()
+            item = value.item()
+            if isinstance(item, (int, float, str, bool, type(None))):
+                group.attrs[name] = item
+            else:
+                # e.g. np.complex64 -> complex, which JSON attributes cannot hold
+                self._serialize_value(item, group, name, skip_names, skip_types, compressors)
         elif hasattr(value, "__fspath__") or str(type(value)).startswith("<class 'pathlib."):
             # Handle pathlib.Path objects and other path-like objects
             group.attrs[name] = str(value)
